@@ -240,7 +240,7 @@ ensures
     fm_inv(*final(self)),
     final(self).input == old(self).input, final(self).offset == old(self).offset,
     final(self).scanner_impl == old(self).scanner_impl,
-    forall|x: usize| old(self).line_offsets@.contains(x) ==> final(self).line_offsets@.contains(x),
+    forall|x: usize| #![trigger old(self).line_offsets@.contains(x)] #![trigger final(self).line_offsets@.contains(x)] old(self).line_offsets@.contains(x) ==> final(self).line_offsets@.contains(x),
     position < old(self).last_position + old(self).offset ==> cur_n(*final(self)) == cur_n(*old(self)),
     position >= old(self).last_position + old(self).offset ==> adv_target(old(self).input@, cur_n(*old(self)), position as int, cur_n(*final(self))),
     // every line start in the consumed region is recorded
@@ -342,13 +342,181 @@ ensures
     fm_inv(*final(self)),
     final(self).input == old(self).input, final(self).offset == old(self).offset,
     final(self).scanner_impl == old(self).scanner_impl,
-    forall|x: usize| old(self).line_offsets@.contains(x) ==> final(self).line_offsets@.contains(x),
+    forall|x: usize| #![trigger old(self).line_offsets@.contains(x)] #![trigger final(self).line_offsets@.contains(x)] old(self).line_offsets@.contains(x) ==> final(self).line_offsets@.contains(x),
     matched.span.start >= matched.span.end ==> cur_n(*final(self)) == cur_n(*old(self)),
     matched.span.start < matched.span.end && matched.span.end + old(self).offset >= old(self).last_position + old(self).offset
         ==> adv_target(old(self).input@, cur_n(*old(self)), matched.span.end + old(self).offset, cur_n(*final(self))),
     forall|j: int| cur_n(*old(self)) <= j < cur_n(*final(self)) && #[trigger] starts_line(old(self).input@, j) ==> final(self).line_offsets@.contains(boff(old(self).input@, j) as usize),
     cur_n(*old(self)) <= cur_n(*final(self)),
 ''', props=['C01', 'C07', 'C10'])
+
+
+HAY_PROOF = '''
+    proof {
+        lemma_cur_cursor(*self);
+        axiom_utf8_boundary(self.input, m0);
+        axiom_utf8_boundary(self.input, inp.len() as int);
+        axiom_utf8_bytes_len(self.input);
+        axiom_str_blen(self.input);
+        lemma_boff_ends(inp);
+        lemma_boff_mono(inp, m0, inp.len() as int);
+    }
+    let __hay = &self.input[$r];
+    proof {
+        axiom_utf8_suffix_view(self.input, __hay, m0);
+    }
+'''
+
+next_match = Fn(
+    F_FMI, IMPL, 'next_match', ret='res',
+    spec='''
+requires fm_inv(*old(self))
+ensures
+    fm_inv(*final(self)),
+    final(self).input == old(self).input, final(self).offset == old(self).offset,
+    same_config(old(self).scanner_impl, final(self).scanner_impl),
+    forall|x: usize| #![trigger old(self).line_offsets@.contains(x)] #![trigger final(self).line_offsets@.contains(x)] old(self).line_offsets@.contains(x) ==> final(self).line_offsets@.contains(x),
+    match res {
+        None => cur_n(*final(self)) == old(self).input@.len()
+            && no_more(old(self).scanner_impl, old(self).input@, cur_n(*old(self)))
+            && final(self).scanner_impl.current_mode == old(self).scanner_impl.current_mode,
+        Some(m) => is_next_tok(old(self).scanner_impl, old(self).input@, cur_n(*old(self)), m, cur_n(*final(self)))
+            && final(self).scanner_impl.current_mode == next_mode(old(self).scanner_impl, m.token_type),
+    },
+    forall|j: int| cur_n(*old(self)) <= j < cur_n(*final(self)) && #[trigger] starts_line(old(self).input@, j) ==> final(self).line_offsets@.contains(boff(old(self).input@, j) as usize),
+    cur_n(*old(self)) <= cur_n(*final(self)),
+''',
+    props=['C01', 'C04', 'C06', 'C07', 'C09', 'C10', 'C12'],
+    edits=[
+        Ins('body_start', None, '''
+let ghost inp = self.input@;
+let ghost s0 = self.scanner_impl;
+let ghost m0 = cur_m(*self);
+let ghost n0 = cur_n(*self);
+let ghost mut n: int = n0;
+let ghost lo0 = self.line_offsets@;
+proof {
+    lemma_cur_cursor(*self);
+    axiom_str_blen(self.input);
+}
+''', label='next_match.entry'),
+        LoopSpec('loop {', label='next_match.loop', spec='''
+invariant
+    fm_inv(*self),
+    self.input == old(self).input, self.offset == old(self).offset, inp == self.input@,
+    blen(inp) <= usize::MAX,
+    scanner_wf(s0), mode_ok(s0),
+    s0 == old(self).scanner_impl, n0 == cur_n(*old(self)), lo0 == old(self).line_offsets@,
+    same_config(s0, self.scanner_impl), self.scanner_impl.current_mode == s0.current_mode,
+    cursor(*self, m0, n), n0 <= n <= inp.len(),
+    forall|q2: int| n0 <= q2 < n ==> no_cand_at(s0, inp, q2),
+    forall|x: usize| #![trigger lo0.contains(x)] #![trigger self.line_offsets@.contains(x)] lo0.contains(x) ==> self.line_offsets@.contains(x),
+    forall|j: int| n0 <= j < n && #[trigger] starts_line(inp, j) ==> self.line_offsets@.contains(boff(inp, j) as usize),
+ensures
+    fm_inv(*self),
+    self.input == old(self).input, self.offset == old(self).offset,
+    same_config(s0, self.scanner_impl), self.scanner_impl.current_mode == s0.current_mode,
+    cursor(*self, m0, n), n == inp.len(), result is None,
+    no_more(s0, inp, n0),
+    forall|x: usize| #![trigger lo0.contains(x)] #![trigger self.line_offsets@.contains(x)] lo0.contains(x) ==> self.line_offsets@.contains(x),
+    forall|j: int| n0 <= j < n && #[trigger] starts_line(inp, j) ==> self.line_offsets@.contains(boff(inp, j) as usize),
+decreases self.char_indices.decrease()->0
+'''),
+        Replace('E6', 'result = self.scanner_impl.find_from(&self.input[$r], self.char_indices.clone());', '''
+{ ''' + HAY_PROOF + '''
+    let __ci = self.char_indices.clone();
+    let ghost sb = self.scanner_impl;
+    let ghost rem = self.char_indices.remaining();
+    proof {
+        lemma_cur_is(*self, m0, n);
+        lemma_ci_at_slice(inp, m0, n, rem);
+        assert(mode_wf(s0.scanner_modes@[s0.current_mode as int], s0.scanner_modes@.len() as int));
+        lemma_boff_mono(inp, m0, n);
+        lemma_boff_mono(inp, n, inp.len() as int);
+    }
+    result = self.scanner_impl.find_from(__hay, __ci);
+    proof {
+        // the automaton and class predicate consulted are those of the mode the iterator was in on entry
+        lemma_same_config_trans(s0, sb, self.scanner_impl);
+        assert(cur_dfa(sb) == cur_dfa(s0));
+        assert(cur_cls(sb) == cur_cls(s0));
+        assert(ci_at(rem, __hay@, n - m0));
+        assert(find_post(cur_dfa(s0), cur_cls(s0), inp.skip(n), (boff(inp, n) - boff(inp, m0)) as nat, result));
+        assert(cursor(*self, m0, n));
+        lemma_cur_is(*self, m0, n);
+    }
+}''', why='argument expressions let-bound in evaluation order so that ghost code can name the haystack slice'),
+        Ins('after', 'if let Some(mut matched) = result {', '''
+let ghost sc1 = self.scanner_impl;
+let ghost l = lemma_find_post_len(cur_dfa(s0), cur_cls(s0), inp.skip(n), (boff(inp, n) - boff(inp, m0)) as nat, matched);
+let ghost m_rel = matched;
+proof {
+    lemma_boff_split(inp, n, l);
+    assert(matched.span.end + self.offset == boff(inp, n + l));
+    lemma_boff_mono(inp, n + l, inp.len() as int);
+    assert(fm_inv(*self));
+}
+''', label='next_match.matched'),
+        Ins('before', 'return Some(matched);', '''
+proof {
+    lemma_adv_target_boundary(inp, n, n + l, cur_n(*self));
+    lemma_find_post_shift(cur_dfa(s0), cur_cls(s0), inp.skip(n), (boff(inp, n) - boff(inp, m0)) as nat, boff(inp, m0), m_rel, matched);
+    assert(tok_at(s0, inp, n, matched));
+    assert(is_next_tok(s0, inp, n0, matched, n + l));
+    assert(s0.scanner_modes@[s0.current_mode as int].transitions == self.scanner_impl.scanner_modes@[s0.current_mode as int].transitions);
+}
+''', label='next_match.return_token'),
+        Ins('after', '} else if let Some((i, c)) = self.char_indices.next() {', '''
+proof {
+    lemma_ci_seq_step(inp, n, (boff(inp, n) - boff(inp, m0)) as nat);
+    lemma_boff_next(inp, n);
+    lemma_boff_mono(inp, n + 1, inp.len() as int);
+    assert(c == inp[n] && i + self.offset == boff(inp, n));
+    assert(no_cand_at(s0, inp, n));
+    if self.last_char == '\\n' { assert(starts_line(inp, n)); lemma_line_start_byte(inp, n); }
+}
+let ghost lo_b = self.line_offsets@;
+let ghost lc_b = self.last_char;
+''', label='next_match.skip_char'),
+        Ins('after_stmt', 'self.record_line_offset(i + self.offset, c);', '''
+proof {
+    assert(cursor(*self, m0, n + 1));
+    lemma_cur_is(*self, m0, n + 1);
+    assert forall|j: int| n0 <= j < n + 1 && #[trigger] starts_line(inp, j) implies self.line_offsets@.contains(boff(inp, j) as usize) by {
+        if j == n {
+            if n == 0 { lemma_boff_ends(inp); assert(lo_b[0] == 0usize); assert(lo_b.contains(0usize)); }
+        } else {
+            assert(lo_b.contains(boff(inp, j) as usize));
+        }
+    }
+    n = n + 1;
+}
+''', label='next_match.skipped'),
+        Ins('after', '} else {', '''
+proof {
+    if n < inp.len() { lemma_ci_seq_step(inp, n, (boff(inp, n) - boff(inp, m0)) as nat); }
+    assert(n == inp.len());
+    lemma_boff_ends(inp);
+    axiom_utf8_bytes_len(self.input);
+    if self.last_char == '\\n' { assert(starts_line(inp, n)); lemma_line_start_byte(inp, n); }
+}
+let ghost lo_b = self.line_offsets@;
+''', occ=1, label='next_match.exhausted'),
+        Ins('before', 'break', '''
+proof {
+    assert(cursor(*self, m0, n));
+    lemma_cur_is(*self, m0, n);
+    assert(no_cand_at(s0, inp, n)) by {
+        assert forall|l: int, tid: TerminalID| !#[trigger] cand(cur_dfa(s0), cur_cls(s0), inp.skip(n), l, tid) by { }
+    }
+}
+''', label='next_match.end_of_input'),
+        Tail('''
+proof {
+    lemma_cur_is(*self, m0, n);
+}
+''', label='next_match.exit'),
+    ])
 
 offset_fn = Fn(F_FMI, IMPL, 'offset', ret='r',
                spec='requires fm_inv(*self)\nensures r == self.last_position + self.offset',
@@ -430,6 +598,7 @@ pub struct CharacterClassRegistry { _private: () }
         with_offset,
         advance_to,
         advance_beyond_match,
+        next_match,
         offset_fn,
         fmi_current_mode,
         fmi_set_mode,
